@@ -92,6 +92,15 @@ pub fn guarded_timeout(op: &str, input: &[u8], limit: std::time::Duration) -> Ou
     }
 }
 
+/// run one operation in a child process of its own (killed afterwards): for operations that change process-wide state
+pub fn fresh_child(op: &str, input: &[u8], limit: std::time::Duration) -> Outcome {
+    fn reap() { let mut g = KID.lock().unwrap(); if let Some(mut k) = g.take() { let _ = k.child.kill(); let _ = k.child.wait(); } }
+    reap();
+    let r = guarded_timeout(op, input, limit);
+    reap();
+    r
+}
+
 /// the child side
 pub fn child_main() {
     // 3 GiB of address space: a decoder that asks for memory unrelated to its input dies here
